@@ -5,7 +5,7 @@ import math
 import numbers
 from typing import Dict
 
-from ..envdrive import Driver, folder_case_strategy, gen_case_strategy, shipped_case_strategy, shipped_files, has_proxy, load_shipped
+from ..envdrive import Driver, folder_case_strategy, gen_case_strategy, long_case_strategy, shipped_case_strategy, shipped_files, has_proxy, load_shipped
 from ..harness import CaseResult, Ctx, hyp_run
 
 ID = "C01"
@@ -15,7 +15,8 @@ RULE = (
     "episode-scheduled scenario folder driven through more resets than its schedule has episodes, "
     "max_episode_length optionally overridden to 3/8/20) or a member of the generated LAN/ROUTED/DMZ families; ops are "
     "steps over the whole Discrete action space ignoring the mask (incl. entries aimed at missing or powered-off "
-    "components), resets with/without seed, at most 3 steps past truncation. Non-trivial = >=1 state-changing "
+    "components), resets with/without seed, at most 3 steps past truncation; 'long' cases put 26-45 consecutive idle "
+    "steps after a prefix biased to logins (inactivity timeouts, scheduled attackers) in episodes of 40-70 steps. Non-trivial = >=1 state-changing "
     "(successful non-idle) blue action AND (>=2 episodes or the truncation boundary crossed); distinct by case hash."
 )
 ASSUMPTIONS = [
@@ -33,7 +34,15 @@ def run_case(case: Dict) -> CaseResult:
         res.violate(f"raise:build:{d.error[1]}", d.error[2])
         return res
     env = d.env
-    st = {"changing": 0, "crossed": False, "prev_episode": env.episode_counter}
+    st = {"changing": 0, "crossed": False, "prev_episode": env.episode_counter, "sessions": 0, "timed_out": 0}
+
+    def open_sessions():
+        k = 0
+        for n in env.game.simulation.network.nodes.values():
+            usm = getattr(n, "user_session_manager", None)
+            if usm is not None:
+                k += len(usm.remote_sessions) + (1 if usm.local_session else 0)
+        return k
 
     def after_reset(i, op, obs, info):
         g = env.game
@@ -91,6 +100,10 @@ def run_case(case: Dict) -> CaseResult:
         blue = env.agent.history[-1] if env.agent.history else None
         if blue is not None and blue.action != "do-nothing" and blue.response.status == "success":
             st["changing"] += 1
+        k = open_sessions()
+        if blue is not None and blue.action == "do-nothing" and k < st["sessions"]:
+            st["timed_out"] += 1
+        st["sessions"] = k
         return not res.violations
 
     d.run(after_reset=after_reset, after_step=after_step)
@@ -105,6 +118,10 @@ def run_case(case: Dict) -> CaseResult:
         res.label("has_state_change")
     if case["src"] == "gen":
         res.label("fam:" + case["spec"]["family"])
+    if any(op[0] == "idle" for op in case["ops"]):
+        res.label("long_idle_tail")
+        if st["timed_out"]:
+            res.label("session_timed_out_while_idle")
     return res
 
 
@@ -120,3 +137,6 @@ def worker(ctx: Ctx):
     hyp_run(ctx, gen_case_strategy(max_ops=30), run_case, 35 if q else 1200, sub=0)
     hyp_run(ctx, shipped_case_strategy(paths, max_ops=25), run_case, 12 if q else 500, sub=1)
     hyp_run(ctx, folder_case_strategy(small_only=q, max_ops=24), run_case, 3 if q else 60, sub=2)
+    slow = ("uc7", "tap00", "nmap")  # long tails on the big scenarios only in the thorough tier
+    lp = [p for p in paths if not (q and any(s in p.lower() for s in slow))]
+    hyp_run(ctx, long_case_strategy(lp), run_case, 10 if q else 300, sub=3)
